@@ -22,6 +22,7 @@
 package vs
 
 import (
+	"os"
 	"runtime"
 	"runtime/debug"
 	"sync"
@@ -141,6 +142,7 @@ type Kernel struct {
 	MaxSteps   int
 	MaxElapsed time.Duration // virtual-time budget (0 = none)
 	timeUp     bool
+	patience   int64 // multiplier for HangNs (re-check of a watchdog expiry)
 	HangNs     int64 // wall-clock limit for one task step
 	events     *event
 	evseq      uint64
@@ -218,6 +220,9 @@ func fset(p *uint32, v uint32) {
 //go:norace
 func New(s *Src) *Kernel {
 	k := &Kernel{S: s, now: Epoch, start: Epoch, MaxSteps: 2000000, HangNs: 30e9}
+	if os.Getenv("VERIF_PATIENCE") != "" {
+		k.patience = 3
+	}
 	K = k
 	active.Store(true)
 	return k
@@ -577,7 +582,11 @@ func (k *Kernel) Run() string {
 		k.cur = t
 		st(&k.mainW, 0)
 		fset(&t.word, 1)
-		if !fwait(&k.mainW, 1, k.HangNs) {
+		hn := k.HangNs
+		if k.patience > 1 {
+			hn *= k.patience
+		}
+		if !fwait(&k.mainW, 1, hn) {
 			k.Hung = t
 			return Hang
 		}
